@@ -21,8 +21,10 @@ def run(ctx):
     ctx.rule("R11.b", "both routes the property names reach the merge: the metaclass __init__ (class creation) and Parameters.add_parameter call _initialize_parameter, which calls __param_inheritance; "
                       "a Parameter assigned to a class attribute goes through it as well", floor=3)
     ctx.rule("R11.c", "the re-validation guard treats every default other than None alike (shared with R01.k) and instantiate is inherited whatever the type relation (shared with R12.l)", floor=1)
+    ctx.rule("R11.d", "allow_None is recomputed from the class's own declaration, never inherited: every store `self.allow_None = allow_None` of a constructor argument in a Parameter type is "
+                      "reached only when that argument is known not to be Undefined (an Undefined slot would be filled from the nearest ancestor by the merge R11.a describes)", floor=2)
     ctx.not_decided += ["hierarchies deeper than three levels and multiple-inheritance merges (the model is bounded; the search loop is the same code)",
-                        "that allow_None is recomputed from the class's own declaration (done in Parameter.__init__ / _update_state of each type, outside this function)",
+                        "that the value allow_None is recomputed TO is the right one for each type (only that it is never left Undefined, R11.d)",
                         "that the validators themselves are right (C01)"]
     ctx.assumptions.append("ancestors were created earlier, so every slot of their Parameter objects is filled (only the new Parameter has Undefined slots)")
     # R11.b: call-graph facts
@@ -42,6 +44,28 @@ def run(ctx):
         ctx.ok("R11.b", sa, hit[0], "a Parameter assigned at class level is merged with its ancestors")
     else:
         ctx.fail("R11.b", sa, sa.node, "a Parameter assigned at class level is no longer merged with its ancestors", key=sa.qualname + "::no-merge")
+    # R11.d
+    from engine.cfg import cond_holds
+    n_sites = 0
+    for g in ctx.repo.funcs.values():
+        if g.cls is None or not ctx.facts.is_parameter_cls(g.cls.qualname) or "allow_None" not in g.params:
+            continue
+        cfg = None
+        for st in ast.walk(g.node):
+            if isinstance(st, ast.Assign) and any(isinstance(t, ast.Attribute) and t.attr == "allow_None" and isinstance(t.value, ast.Name) and t.value.id == g.params[0] for t in st.targets) \
+                    and isinstance(st.value, ast.Name) and st.value.id == "allow_None":
+                cfg = cfg or ctx.facts.cfg(g)
+                for nd in cfg.nodes_of(st):
+                    n_sites += 1
+                    conds = cfg.conditions(nd)
+                    if cond_holds(conds, "allow_None is Undefined", False) or cond_holds(conds, "allow_None is not Undefined", True):
+                        ctx.ok("R11.d", g, nd, "stored only when given")
+                    else:
+                        ctx.fail("R11.d", g, nd, "%s stores the constructor argument allow_None without knowing that it was given: left Undefined, the slot is filled from the nearest ancestor "
+                                                 "when the class is created, so a redeclaration that does not mention allow_None inherits the ancestor's instead of recomputing it" % g.qualname,
+                                 key=g.qualname + "::allow-none-may-be-undefined")
+    ctx.require(n_sites >= 2, "fewer than 2 stores of the allow_None argument found (%d)" % n_sites)
+
     # R11.c
     from checks.shared import inherited_default_revalidated
     inherited_default_revalidated(ctx, "R11.c")
